@@ -15,6 +15,10 @@
    two named wrong column lookups of the spec must be refuted by TLC in every run (non-vacuity).
    Metric values are rationals cube/den (one denominator per kind): column maxima above one, exactly one, strictly
    between 0 and 1, zero and negative are mixed; the spec deviation "divisor floored at one" must be refuted too.
+   calculate() must leave its argument unchanged and give the same result when evaluated again.
+5. units: every munkres / greedy record is replayed with the rewards times powers of two (a differing decision must be
+   admissible for the same instance: ScaleExplained / ScaleInvariant); near-tie records of ordinary magnitude are large
+   integers handed to the real code times 2^-23.  Deviation "absolute bonus for visible pairs" refuted by TLC.
 """
 from __future__ import annotations
 
@@ -39,9 +43,15 @@ def _decisions(seed):
             "random": RandomDecision(seed=seed), "allvisible": AllVisibleDecision()}
 
 
-def _calc(dec, R, V):
-    D = dec.calculate(np.array(R, dtype=float), np.array(V, dtype=bool))
+def _calc(dec, R, V, scale=1.0):
+    """The real decision on the reward matrix R * scale (scale is a power of two: the product is exact, ties stay ties)."""
+    D = dec.calculate(np.array(R, dtype=float) * scale, np.array(V, dtype=bool))
     return np.asarray(D).astype(int).tolist()
+
+
+# optimality does not depend on the unit of the rewards: D(c R, V) must be admissible for (R, V) for every c > 0
+# (Decisions.tla, theorem ScaleInvariant).  Powers of two keep every product, sum and comparison of the lattice exact.
+SCALES = (2.0 ** -24, 2.0 ** -30, 2.0 ** 20)
 
 
 def hungarian_max(R):
@@ -104,9 +114,21 @@ def gen_records(ctx: Ctx, rng):
     decs = _decisions(ctx.seed)
     recs = []
 
-    def add(p, R, V, relabel=False):
+    scaled = {"replays": 0, "differing": 0}
+
+    def add(p, R, V, relabel=False, scale=1.0, all_scales=False):
         nt, ns = len(R), len(R[0])
-        rec = {"p": p, "nt": nt, "ns": ns, "R": R, "V": V, "D": _calc(decs[p], R, V)}
+        rec = {"p": p, "nt": nt, "ns": ns, "R": R, "V": V, "D": _calc(decs[p], R, V, scale)}
+        if p in ("munkres", "greedy") and scale == 1.0:
+            # the same record in other units: one scale in rotation (all three for the small shapes / samples); a decision
+            # that differs from D is handed to TLC as well (field Ds) and must be admissible for the unscaled (R, V)
+            for c in (SCALES if all_scales or nt * ns < 9 else (SCALES[len(recs) % 3],)):
+                Dc = _calc(decs[p], R, V, c)
+                scaled["replays"] += 1
+                if Dc != rec["D"]:
+                    scaled["differing"] += 1
+                    rec.setdefault("Ds", []).append(Dc)
+                    rec.setdefault("scales", []).append(c)
         if relabel:
             pi = list(range(nt))
             sg = list(range(ns))
@@ -114,7 +136,7 @@ def gen_records(ctx: Ctx, rng):
             rng.shuffle(sg)
             R2 = [[R[pi[t]][sg[s]] for s in range(ns)] for t in range(nt)]
             V2 = [[V[pi[t]][sg[s]] for s in range(ns)] for t in range(nt)]
-            rec.update(pi=[x + 1 for x in pi], sg=[x + 1 for x in sg], D2=_calc(decs[p], R2, V2))
+            rec.update(pi=[x + 1 for x in pi], sg=[x + 1 for x in sg], D2=_calc(decs[p], R2, V2, scale))
         recs.append(rec)
         ties = p in ("munkres", "greedy") and len({x for row in R for x in row}) < nt * ns
         ctx.case((p, R, V), nontrivial=ties or nt * ns > 1, sample=rec if len(recs) % 9973 == 1 else None)
@@ -149,7 +171,25 @@ def gen_records(ctx: Ctx, rng):
         R = [[rng.choice(vals) for _ in range(ns)] for _ in range(nt)]
         V = [[int(rng.random() < 0.7) for _ in range(ns)] for _ in range(nt)]
         p = rng.choice(("munkres", "greedy", "random", "allvisible"))
-        add(p, R, V, relabel=rng.random() < 0.5)
+        add(p, R, V, relabel=rng.random() < 0.5, all_scales=True)
+    # near ties at ordinary magnitudes: large integer rewards (zero where invisible, as the engine produces them) handed
+    # to the real code times 2^-23 (values of order 0.1 .. 1); two assignments, one of them through an invisible pair,
+    # whose totals differ by 1..3 units (1.2e-7 .. 3.6e-7).  TLC decides admissibility on the integers.
+    n_near = 800 if ctx.quick else 12000
+    for k in range(n_near):
+        nt, ns = rng.choice(((2, 2), (2, 2), (2, 3), (3, 2), (3, 3)))
+        m = min(nt, ns)
+        V = [[int(rng.random() < 0.75) for _ in range(ns)] for _ in range(nt)]
+        R = [[rng.randint(2 ** 19, 2 ** 22) * V[t][s] for s in range(ns)] for t in range(nt)]
+        rows, cols = rng.sample(range(nt), m), rng.sample(range(ns), m)
+        cols2 = cols[1:] + cols[:1]
+        tot = lambda cs: sum(R[t][s] for t, s in zip(rows, cs))  # noqa: E731
+        t0, s0 = rows[0], cols[0]
+        if V[t0][s0]:       # make assignment (rows, cols) better than (rows, cols2) by delta through a visible entry
+            R[t0][s0] = max(0, R[t0][s0] + tot(cols2) - tot(cols) + rng.choice((1, 2, 3, -1, 0)))
+        add(rng.choice(("munkres", "munkres", "greedy")), R, V, relabel=k % 4 == 0, scale=2.0 ** -23)
+    ctx.extra["scaled_decision_replays"] = scaled["replays"]
+    ctx.extra["scaled_decisions_differing_handed_to_tlc"] = scaled["differing"]
     return recs
 
 
@@ -230,7 +270,13 @@ def validate_records(ctx: Ctx, recs, certs):
             m = re.findall(r"/\\ i = (\d+)", "\n".join(states))
             rec = shards[k][int(m[-1]) - 1] if m else None
             pol = rec["p"] if rec else "?"
-            ctx.violation(f"{pol}-{inv}", f"real {POL.get(pol, pol)} record violates {inv}", {"record": rec})
+            if inv == "ScaleExplained":
+                ctx.violation(f"{pol}-depends-on-reward-scale",
+                              f"real {POL.get(pol, pol)}: the decision on the rewards times {rec.get('scales') if rec else '?'} differs from the "
+                              "unscaled one and is not admissible for the same problem (optimality does not depend on the unit of the rewards)",
+                              {"record": rec})
+            else:
+                ctx.violation(f"{pol}-{inv}", f"real {POL.get(pol, pol)} record violates {inv}", {"record": rec})
         expected = 2 * len(shards[k]) + 65
         if res.ok and res.distinct_states != expected:
             raise tlc.MachineryError(f"trace shard {k}: {res.distinct_states} states, expected {expected}")
@@ -249,7 +295,9 @@ DOC_ORDER = ("stab", "info", "sens", "beh")
 # spec deviation cfg -> (name of the deviation, the invariant TLC has to refute with it)
 DEVIATIONS = {"Rewards_deviation_sublist.cfg": ("ColumnsByPositionInSublist", "RewardIsDocumentedCombination"),
               "Rewards_deviation_docorder.cfg": ("ColumnsInDocumentedOrder", "RewardIsDocumentedCombination"),
-              "Rewards_deviation_floor.cfg": ("DivisorFlooredAtOne", "NormalisedByKind")}
+              "Rewards_deviation_floor.cfg": ("DivisorFlooredAtOne", "NormalisedByKind"),
+              "Rewards_deviation_inplace.cfg": ("CalculateScalesSensorInPlace", "CalculateKeepsArgument")}
+DEVIATIONS_THOROUGH = {"Rewards_deviation_inplace2.cfg": ("CalculateScalesSensorInPlace", "RecalculateIsStuttering")}
 # control (thorough tier): without the fractional columns the floored divisor is NOT refuted - the reason they are posed
 CONTROL = "Rewards_deviation_floor_unscaled.cfg"
 
@@ -299,7 +347,15 @@ class _FactoryMismatch(Exception):
     pass
 
 
-def _real_reward(built, cube, den=None):
+class _ArgumentModified(Exception):
+    pass
+
+
+class _NotRepeatable(Exception):
+    pass
+
+
+def _real_reward(built, cube, den=None, twice=False):
     """normalizeMetrics + calculate of the real reward on the matrix cube[t][s][c] / den[c]; `normed` is returned
     with its columns in the POSED order."""
     rw, cols = built
@@ -309,8 +365,15 @@ def _real_reward(built, cube, den=None):
         arr = arr / np.array(den, dtype=float)
     if cols is not None:
         arr = arr[..., cols].copy()
-    normed = np.asarray(rw.normalizeMetrics(arr), dtype=float)
-    got = np.asarray(rw.calculate(normed.copy()), dtype=float).reshape(nt, ns)
+    normed = np.asarray(rw.normalizeMetrics(arr), dtype=float)      # may normalise `arr` in place (engine usage)
+    keep = normed.copy()
+    got = np.array(rw.calculate(normed), dtype=float).reshape(nt, ns)      # a copy: the result may alias the argument
+    if not np.array_equal(normed, keep):
+        raise _ArgumentModified(f"calculate() modified its argument: {keep.tolist()} became {normed.tolist()}")
+    if twice:
+        again = np.array(rw.calculate(normed), dtype=float).reshape(nt, ns)
+        if not np.array_equal(got, again) or not np.array_equal(normed, keep):
+            raise _NotRepeatable(f"a second calculate() on the same matrix gave {again.tolist()} after {got.tolist()}")
     if cols is not None and normed.shape == arr.shape:
         back = np.empty_like(normed)
         back[..., cols] = normed
@@ -321,7 +384,8 @@ def _real_reward(built, cube, den=None):
 def replay_rewards(ctx: Ctx):
     from concurrent.futures import ThreadPoolExecutor
     cfgs = ["Rewards_quick.cfg"] if ctx.quick else ["Rewards_quick.cfg", "Rewards_orders_thorough.cfg", "Rewards_thorough.cfg"]
-    side = list(DEVIATIONS) + ([] if ctx.quick else [CONTROL])
+    deviations = dict(DEVIATIONS) if ctx.quick else {**DEVIATIONS, **DEVIATIONS_THOROUGH}
+    side = list(deviations) + ([] if ctx.quick else [CONTROL])
     with ThreadPoolExecutor(len(side) + 1) as ex:
         # non-vacuity of the order / fractional-maximum strata: TLC must refute each named wrong column lookup and the
         # floored normalisation divisor (small runs, one worker each, beside the main run)
@@ -333,19 +397,19 @@ def replay_rewards(ctx: Ctx):
             ctx.add_tlc(res, "Rewards.tla with deviation DivisorFlooredAtOne on integer-valued metrics only: NOT refutable (control)")
             tlc.require_ok(res, c)
             continue
-        name, inv = DEVIATIONS[c]
+        name, inv = deviations[c]
         ctx.add_tlc(res, f"Rewards.tla with deviation {name}: refutation by {inv} expected")
-        if [i for i, _ in res.invariant_violations] != [inv] or res.errors:
-            raise tlc.MachineryError(f"spec deviation {name} not refuted by {inv} "
-                                     f"(violated: {[i for i, _ in res.invariant_violations]}, errors: {res.errors[:2]})")
-    ctx.extra["reward_spec_deviations_refuted"] = sorted(nm for nm, _ in DEVIATIONS.values())
+        violated = [i for i, _ in res.invariant_violations] + [i for i, _ in res.property_violations]
+        if violated != [inv] or res.errors:
+            raise tlc.MachineryError(f"spec deviation {name} not refuted by {inv} (violated: {violated}, errors: {res.errors[:2]})")
+    ctx.extra["reward_spec_deviations_refuted"] = sorted({nm for nm, _ in deviations.values()})
     build = _reward_builder()
     n = 0
     orders_seen = set()
     max_classes = {"above one": 0, "exactly one": 0, "strictly between 0 and 1": 0, "zero": 0, "negative": 0}
     for cfg, res in zip(cfgs, main):
-        for inv, states in res.invariant_violations:
-            raise tlc.MachineryError(f"Rewards.tla invariant {inv} violated at spec level ({cfg}):\n" + "\n".join(states[-1:]))
+        for inv, states in list(res.invariant_violations) + list(res.property_violations):
+            raise tlc.MachineryError(f"Rewards.tla invariant/property {inv} violated at spec level ({cfg}):\n" + "\n".join(states[-1:]))
         tlc.require_ok(res, cfg)
         ctx.add_tlc(res, f"Rewards.tla exhaustive, metric order x cube ({cfg}: kind-level reward formula, normalisation invariants, expected rewards)")
         for st in res.tagged("REWARD"):
@@ -362,9 +426,15 @@ def replay_rewards(ctx: Ctx):
             # which metric class of each type: a function of the posed state (TLC's output order is not deterministic)
             pick = ctx.seed + sum((i + 1) * v for i, v in enumerate(x for row in cube for cell in row for x in cell))
             try:
-                normed, got = _real_reward(build(kind, st["delta"], order, pick), cube, den)
+                normed, got = _real_reward(build(kind, st["delta"], order, pick), cube, den, twice=pick % 3 == 0)
             except tlc.MachineryError:
                 raise
+            except _ArgumentModified as exc:
+                ctx.violation(f"reward-calculate-modifies-argument-{kind}", f"{REWARD_NAME[kind]} reward: {exc}", {"state": st})
+                continue
+            except _NotRepeatable as exc:
+                ctx.violation(f"reward-calculate-not-repeatable-{kind}", f"{REWARD_NAME[kind]} reward: {exc}", {"state": st})
+                continue
             except _FactoryMismatch as exc:
                 ctx.violation("reward-factory-metrics", str(exc), {"state": st})
                 continue
@@ -428,18 +498,39 @@ def run(ctx: Ctx):
                 "every order of its metric kinds x cube (whole lattice for the documented order, kind-distinct columns for all orders), "
                 "reward built by rewardsFactory from the config listing the metrics in that order, metric class rotating within its type")
     ctx.assumptions = ["documented sense of each policy: selection on R, then AND with V (Decision.calculate)",
-                       "rewards are integers in the records (ties are exact); floats only inside the implementation",
+                       "rewards are integers in the records (ties are exact); floats only inside the implementation; scaled replays "
+                       "multiply them by powers of two (2^-30, 2^-24, 2^-23, 2^20: exact products and sums, ties stay ties)",
+                       "Reward.normalizeMetrics may normalise the matrix it is given in place (engine usage); Reward.calculate must not "
+                       "modify its argument (compared with a copy, exact) and a second calculate() on the same array must return the "
+                       "same values (driver-side relations, every state / every third state; spec: CalculateKeepsArgument, RecalculateIsStuttering)",
                        "reward values / normalised metrics compared with the exact rationals to 1e-12 absolute; the metric matrix handed "
                        "to the real code is the float quotient numerator/denominator (denominators 1..4)",
                        "a reward identifies its metrics by METRIC_TYPE (class docstrings: 'one metric of each of the following types'), "
                        "so every listing order of the kinds is a valid configuration",
                        "delta other than the default is set on a copy of the validated RewardConfig (the schema's gt=0/lt=0 bounds "
                        "reject every explicit delta); the reward is still built by rewardsFactory/fromConfig"]
-    for cfgname in (["Decisions_quick.cfg"] if ctx.quick else ["Decisions_thorough2.cfg", "Decisions_thorough.cfg"]):
-        spec = tlc.require_ok(tlc.run_tlc("Decisions", cfgname, ctx.sub("spec_" + cfgname[:-4]), workers=ctx.cpus, timeout=6000))
-        ctx.add_tlc(spec, f"Decisions.tla spec-level theorems ({cfgname})")
-        for inv, states in spec.invariant_violations:
-            raise tlc.MachineryError(f"Decisions.tla theorem {inv} fails at spec level:\n" + "\n".join(states[-1:]))
+    from concurrent.futures import ThreadPoolExecutor
+    with ThreadPoolExecutor(2) as ex:
+        # non-vacuity of the scale stratum: an ABSOLUTE bonus for visible pairs must be refuted on rewards of its own
+        # magnitude (and, thorough tier, is not refutable on well separated rewards: the control)
+        side = {c: ex.submit(tlc.run_tlc, "Decisions", c, ctx.sub("spec_" + c[:-4]), workers=1, timeout=600)
+                for c in ["Decisions_deviation_bonus.cfg"] + ([] if ctx.quick else ["Decisions_deviation_bonus_coarse.cfg"])}
+        for cfgname in (["Decisions_quick.cfg"] if ctx.quick else ["Decisions_thorough2.cfg", "Decisions_thorough.cfg"]):
+            spec = tlc.run_tlc("Decisions", cfgname, ctx.sub("spec_" + cfgname[:-4]), workers=ctx.cpus, timeout=6000)
+            for inv, states in spec.invariant_violations:
+                raise tlc.MachineryError(f"Decisions.tla theorem {inv} fails at spec level:\n" + "\n".join(states[-1:]))
+            tlc.require_ok(spec, cfgname)
+            ctx.add_tlc(spec, f"Decisions.tla spec-level theorems incl. ScaleInvariant ({cfgname})")
+        for c, f in side.items():
+            res = f.result()
+            if c.endswith("coarse.cfg"):
+                ctx.add_tlc(res, "Decisions.tla with deviation AbsoluteVisibleBonus on well separated rewards: NOT refutable (control)")
+                tlc.require_ok(res, c)
+            else:
+                ctx.add_tlc(res, "Decisions.tla with deviation AbsoluteVisibleBonus (VisBonus = 1): refutation by MunkresOptimal expected")
+                if [i for i, _ in res.invariant_violations] != ["MunkresOptimal"] or res.errors:
+                    raise tlc.MachineryError(f"spec deviation AbsoluteVisibleBonus not refuted by MunkresOptimal: {res.invariant_violations[:1]} {res.errors[:2]}")
+    ctx.extra["decision_spec_deviations_refuted"] = ["AbsoluteVisibleBonus"]
     recs = gen_records(ctx, rng)
     certs = gen_certs(ctx, rng)
     validate_records(ctx, recs, certs)
